@@ -279,6 +279,21 @@ def run(prog: Program, roots=None, prop="C14", rid_prefix="R-C14") -> Results:
         res.add(f"{rid_prefix}-4", (rts.key, "resolver keeps state"), rts.loc(),
                 f"{rts.key} stores state on the document / is decorated: the resolved target set may be stale on a later access")
     if prop == "C14":
+        from sa import lints as _lints
+        r12 = res.rule(f"{rid_prefix}-12", "a list used as a manual stack is balanced: in a function that both appends to and pops from "
+                       "the same list, every path from a push to the end of the iteration / function passes a pop (the attrpath "
+                       "expansion prints each leaf under the path that is on the stack at that moment)", floor=40)
+        for f in prog.all_functions():
+            if not f.module.startswith("nix_manipulator/expressions/"):
+                continue
+            r12.instances += 1
+            bad = _lints.unbalanced_push(f)
+            r12.ob(not bad, None if not bad else {"site": f.key, "pushes": [norm(c)[:50] for c, _s in bad]})
+            for c, st in bad:
+                res.add(f"{rid_prefix}-12", (f.key, "push without pop on some path", st), f.loc(c),
+                        f"{f.key}: `{norm(c)[:60]}` is not followed by `{st}.pop()` on every path: whatever is rendered afterwards is "
+                        f"printed under a stale path prefix (`services.timeout` appears as `services.nginx.timeout`), so the text "
+                        f"shows a binding the mapping does not have")
         from sa.rules import c08 as _c08
         _eng, _rev, _sums = _c08.analyse_roots(prog, _c08.MAPPING_ROOTS)
         _closure, _bk = _c08.closure_of(_eng, _c08.MAPPING_ROOTS)
